@@ -21,6 +21,9 @@ class Obs:
         self.kwargs = {}  # type: Dict[str, Any]
         self.instance = None  # type: Any
         self.setup_error = None  # type: Optional[str]
+        # what the function underneath receives as first positional argument in addition to ``args``:
+        # None (plain function / static), ("is", obj) for bound methods / class methods, ("isinstance", cls) for ctors
+        self.first = None  # type: Any
 
     def keys(self) -> List[Tuple[str, str]]:
         return [e.key() for e in self.events if e.kind != "foreign"]
@@ -107,6 +110,7 @@ def construct(loaded, model: Model, cls: str, truth: Optional[Dict[str, Any]] = 
                 args, kwargs = a, k
             bound.update(b)
     obs.args, obs.kwargs, obs.bound = tuple(args), kwargs, bound
+    obs.first = ("ctor", cls_obj)
     try:
         obs.value = cls_obj(*args, **kwargs)
         obs.returned = True
@@ -179,6 +183,7 @@ def perform(loaded, model: Model, call: Dict[str, Any], instance: Any = None) ->
                 kind = m["kind"]
                 holder = cls_obj if via_class else instance
                 if kind in ACCESSORS:
+                    obs.first = ("is", instance)
                     obs.bound = {"self": instance}
                     if kind == "pget":
                         obs.value = getattr(instance, m["name"])
@@ -195,8 +200,11 @@ def perform(loaded, model: Model, call: Dict[str, Any], instance: Any = None) ->
                     args, kwargs, bound = build_args(m["params"], call, skip, loaded.module.DFLT)
                     if kind == "method":
                         bound[m["params"][0]["name"]] = instance
+                        if not call.get("self_kw"):
+                            obs.first = ("is", instance)
                     elif kind == "class":
                         bound[m["params"][0]["name"]] = cls_obj
+                        obs.first = ("is", cls_obj)
                     obs.args, obs.kwargs, obs.bound = tuple(args), kwargs, bound
                     if call.get("unbound") and kind == "method":
                         fn = getattr(cls_obj, m["name"])
@@ -381,7 +389,13 @@ def identity_checks(loaded, contracts: Dict[str, Dict[str, Any]], obs: Obs) -> L
             continue
         for name, val in ev.got.items():
             if name == "_ARGS":
-                if not (isinstance(val, tuple) and len(val) == len(obs.args) and all(a is b for a, b in zip(val, obs.args))):
+                rest = val
+                first_ok = True
+                if obs.first is not None and isinstance(val, tuple):
+                    first_ok = len(val) >= 1 and (val[0] is obs.first[1] if obs.first[0] == "is" else (
+                        val[0] is obs.first[1] or isinstance(val[0], obs.first[1])))
+                    rest = val[1:]
+                if not (first_ok and isinstance(rest, tuple) and len(rest) == len(obs.args) and all(a is b for a, b in zip(rest, obs.args))):
                     out.append(Discrepancy("arg-identity", "{} {} got _ARGS={!r}, call had {!r}".format(ev.kind, ev.id, val, obs.args)))
             elif name == "_KWARGS":
                 if not (isinstance(val, dict) and set(val) == set(obs.kwargs) and all(val[k] is obs.kwargs[k] for k in val)):
